@@ -220,11 +220,31 @@ func c17CheckRoute(r *vcore.Run, s string) {
 		{"digest", "/v2/r/blobs/" + s, digAccept, refDigest(s)},
 		{"manifest-digest", "/v2/r/manifests/" + s, mdigAccept, refDigest(s)},
 	}
+	// s as the repository of every other route: the router accepts exactly the valid names on each of them
+	repoIs := func(method string) func(cs []recCall) bool {
+		return exact(method, func(c recCall) string { return c.Repo })
+	}
+	for _, rp := range []struct{ kind, method, path, query, backend string }{
+		{"repository/get-blob", "GET", "/v2/" + s + "/blobs/" + dig, "", "GetBlob"},
+		{"repository/get-tag", "GET", "/v2/" + s + "/manifests/t", "", "GetTag"},
+		{"repository/delete-manifest", "DELETE", "/v2/" + s + "/manifests/" + dig, "", "DeleteManifest"},
+		{"repository/referrers", "GET", "/v2/" + s + "/referrers/" + dig, "", "Referrers"},
+		{"repository/start-upload", "POST", "/v2/" + s + "/blobs/uploads/", "", "PushBlobChunked"},
+		{"repository/start-upload-no-slash", "POST", "/v2/" + s + "/blobs/uploads", "", "PushBlobChunked"},
+		{"repository/monolithic-upload", "POST", "/v2/" + s + "/blobs/uploads/", "digest=" + dig, "PushBlob"},
+		{"repository/mount", "POST", "/v2/" + s + "/blobs/uploads/", "mount=" + dig + "&from=r", "MountBlob"},
+	} {
+		probes = append(probes, probe{rp.kind + "|" + rp.method + "|" + rp.query, rp.path, repoIs(rp.backend), refRepo(s)})
+	}
 	for _, p := range probes {
 		p := p
 		b := newRecBackend()
 		h := ociserver.New(b.Funcs(), nil)
-		req := &http.Request{Method: "GET", URL: &url.URL{Path: p.path}, Header: http.Header{}, Proto: "HTTP/1.1", ProtoMajor: 1, ProtoMinor: 1, Host: "h"}
+		method, query := "GET", ""
+		if parts := strings.Split(p.kind, "|"); len(parts) == 3 {
+			p.kind, method, query = parts[0], parts[1], parts[2]
+		}
+		req := &http.Request{Method: method, URL: &url.URL{Path: p.path, RawQuery: query}, Header: http.Header{}, Proto: "HTTP/1.1", ProtoMajor: 1, ProtoMinor: 1, Host: "h", Body: http.NoBody}
 		rec := httptest.NewRecorder()
 		if r.Guard("route", "C17/route/"+p.kind+"/"+shape(s), c, func() { h.ServeHTTP(rec, req) }) {
 			continue
